@@ -65,6 +65,8 @@ inductive KPc
   | nice     -- yield chan.close.nice: about to `t.Close(false)` (takes `implLock`)
   | niceLk   -- blocked in `implLock.Lock()`
   | force    -- yield chan.close.force: about to `t.Close(true)`
+  | chanRet  -- `Channel.Close` has returned (nil or the transport's error) to `Driver.Close`,
+             -- which is about to `if err != nil { return err }` / log and `return nil`
   | ret      -- Close returned
   deriving DecidableEq, Repr, Inhabited
 
@@ -126,7 +128,7 @@ def OPc.toNat : OPc → Nat
   | .absent => 0 | .start => 1 | .errs => 2 | .flag => 3 | .deq => 4 | .ret => 5
 def KPc.toNat : KPc → Nat
   | .idle => 0 | .ncDone => 1 | .ncChan => 2 | .entry => 3 | .signal => 4 | .select => 5
-  | .nice => 6 | .niceLk => 7 | .force => 8 | .ret => 9
+  | .nice => 6 | .niceLk => 7 | .force => 8 | .ret => 9 | .chanRet => 10
 def NPc.toNat : NPc → Nat
   | .absent => 0 | .top => 1 | .pre => 2 | .cErrs => 3 | .cFlag => 4 | .cDeq => 5 | .send => 6
   | .parked => 7 | .sent => 8 | .dead => 9 | .woken => 10
@@ -139,7 +141,7 @@ def allFeed : List Feed := [.quiet, .data, .eof, .err]
 def allLeft : List Left := [.zero, .one, .two]
 def allBool : List Bool := [false, true]
 def allRPc : List RPc := [.top, .pre, .inRead, .postOk, .postEof, .postErr, .send, .parked, .woken, .sent, .exit, .dead]
-def allKPc : List KPc := [.idle, .ncDone, .ncChan, .entry, .signal, .select, .nice, .niceLk, .force, .ret]
+def allKPc : List KPc := [.idle, .ncDone, .ncChan, .entry, .signal, .select, .nice, .niceLk, .force, .chanRet, .ret]
 def allNPc : List NPc := [.absent, .top, .pre, .cErrs, .cFlag, .cDeq, .send, .parked, .woken, .sent, .dead]
 def allWPc : List WPc := [.absent, .start, .select, .parked, .got, .ret]
 def allOPc : List OPc := [.absent, .start, .errs, .flag, .deq, .ret]
@@ -151,13 +153,14 @@ def RPc.rank : RPc → Nat
 
 /-- upper bound on the number of further steps of one `Close` call -/
 def KPc.rank : KPc → Nat
-  | .ret => 0 | .force => 1 | .niceLk => 1 | .nice => 2 | .select => 3 | .signal => 4 | .entry => 5
-  | .ncChan => 6 | .ncDone => 7 | .idle => 8
+  | .ret => 0 | .chanRet => 1 | .force => 2 | .niceLk => 2 | .nice => 3 | .select => 4 | .signal => 5
+  | .entry => 6 | .ncChan => 7 | .ncDone => 8 | .idle => 9
 
 def KPc.label : KPc → String
   | .idle => "idle" | .ncDone => "nc.close.done" | .ncChan => "nc.close.chan"
   | .entry => "chan.close.entry" | .signal => "chan.close.signal" | .select => "chan.close.select"
-  | .nice => "chan.close.nice" | .niceLk => "blocked" | .force => "chan.close.force" | .ret => "ret"
+  | .nice => "chan.close.nice" | .niceLk => "blocked" | .force => "chan.close.force"
+  | .chanRet => "~" | .ret => "ret"
 
 /-- upper bound on the number of further steps of the NETCONF read loop once `d.done` is closed -/
 def NPc.rank : NPc → Nat
